@@ -38,6 +38,19 @@ func (c *Ctx) ByteSet(f *types.Func) (set [256]bool, ok bool) {
 }
 
 func (c *Ctx) evalBytePred(f *types.Func, arg int64, depth int) (bool, bool) {
+	if v, ok := c.evalBytePredAST(f, arg, depth); ok {
+		return v, true
+	}
+	// not a single-expression predicate (a switch, a bit trick, early returns): run its SSA form on the byte
+	if fn := c.SSAFn(f); fn != nil && len(fn.Params) == 1 {
+		if v, ok := c.ssaEval(fn, []int64{arg}, 0); ok {
+			return v != 0, true
+		}
+	}
+	return false, false
+}
+
+func (c *Ctx) evalBytePredAST(f *types.Func, arg int64, depth int) (bool, bool) {
 	if depth > 8 {
 		return false, false
 	}
